@@ -11,7 +11,7 @@ Crash(p) ==
   /\ \A v \in Victims : pc[v] # "Dead"            \* one crash per behaviour
   /\ pc' = [pc EXCEPT ![p] = "Dead"]
   /\ UNCHANGED <<dirs, blob, meta, link, tblob, tmeta, tlink, ret, err, hb, fb, fp, stack,
-                 hk, fk, sk, yq, yk, pq, pos, cur>>
+                 hk, fk, sk, yq, yk, pq, pos, cur, j>>
 
 NextC == Next \/ \E p \in Victims : Crash(p)
 SpecC == Init /\ [][NextC]_vars
@@ -20,6 +20,9 @@ SpecC == Init /\ [][NextC]_vars
 KeysAt(q) == (IF q \in DOMAIN Precommitted THEN {Precommitted[q]} ELSE {})
              \cup {Script[p][i].k : <<p, i>> \in {x \in Procs \X (1..8) :
                      x[2] <= Len(Script[x[1]]) /\ Script[x[1]][x[2]].op = "keep" /\ Script[x[1]][x[2]].q = q}}
+             \cup UNION {{Script[x[1]][x[2]].syncs[n][2] :
+                            n \in {m \in 1..Len(Script[x[1]][x[2]].syncs) : Script[x[1]][x[2]].syncs[m][1] = q}} :
+                         x \in {y \in Procs \X (1..8) : y[2] <= Len(Script[y[1]]) /\ Script[y[1]][y[2]].op = "evaln"}}
 
 (* C06 / C07: every keep and load that returns, returns the complete correct value *)
 ReturnedComplete ==
